@@ -61,6 +61,12 @@ TReset ==
     /\ viol' = viol \cup Flag(l > 1 /\ lastPoll = 2 /\ ~closed /\ bytes = 0
                               /\ \E s \in watched : flag[s] \/ queue[s] # << >>,
                               "pending_with_unreported_signal_and_no_wakeup")
+                    \* ... nor parked without an armed wake-up (the readiness callback's last answer
+                    \* was not "nothing available", so nobody will poll it again): a byte in the
+                    \* pipe wakes no one who is not waiting for it
+                    \cup Flag(l > 1 /\ lastPoll = 2 /\ ~closed /\ ~(consulted /\ ~lastAns)
+                              /\ \E s \in watched : flag[s] \/ queue[s] # << >>,
+                              "pending_unarmed_with_unreported_signal")
     /\ watched' = Range(R.watch)
     /\ flag' = [s \in Sigs |-> FALSE] /\ queue' = [s \in Sigs |-> << >>]
     /\ begun' = [s \in Sigs |-> 0] /\ yielded' = [s \in Sigs |-> 0]
@@ -288,7 +294,8 @@ TraceAccepted ==
 ----------------------------------------------------------------------------
 C03set == {"handler_blocked_or_spinning", "handler_lock", "handler_hint", "handler_alloc", "handler_free", "handler_steps"}
 C09set == {"consumer_blocked_with_unreported_signal",
-           "pending_with_unreported_signal_and_no_wakeup", "deadlock", "livelock"}
+           "pending_with_unreported_signal_and_no_wakeup",
+           "pending_unarmed_with_unreported_signal", "deadlock", "livelock"}
 C10set == {"record_not_a_faithful_copy", "yield_of_unwatched_signal", "more_yields_than_deliveries",
            "record_of_no_delivery", "record_yielded_twice", "records_out_of_order"}
 C11set == {"pending_without_consulting_callback", "closed_not_sticky", "closed_before_close",
